@@ -141,12 +141,16 @@ CHECKS['C07'] = dict(
          'duplicates never change an answer, and with no matching definition the lookup fails; normalisation is '
          'whitespace collapsing followed by the case fold whose table is regenerated from the interpreter. The model is '
          'tied to core_tokens.normalize_label (every folded/whitespace code point) and to the real Document.footnotes '
-         '(keys, values and insertion order) on generated documents. That the call order is document order at any '
-         'nesting depth and that every inline parse sees the final table are parser statements: explored on the '
-         'implementation with generated placements (partial).',
+         '(keys, values and insertion order) on generated documents. Over the whole-document model: every inline '
+         'tokenization is given the one final table (C07_two_phase) and the call order IS document order - the block '
+         'phase leaves in its state exactly the definition entries of the parse buffer in pre-order, inside block quotes '
+         'and list items alike (C07_table_is_document_order, C07_first_in_document_order, C07_position_independent; '
+         'simultaneous induction over the tokenizer functions); that conclusion is re-checked on the real block phase '
+         'each run (c07.order). The implementation is explored with generated placements (definitions alone and in runs, '
+         'before/after use, at every nesting level).',
     note='Trusted: Lean kernel (axioms propext/Classical.choice/Quot.sound at most); str.casefold as the Unicode case '
          'fold; correspondence harness. Definitions are placed at block boundaries.',
-    technique='Lean 4 proof (fold invariant: table lookup = first matching definition) + correspondence of normalize_label and Document.footnotes + placement exploration with the generator table as oracle',
+    technique='Lean 4 proof (fold invariant: table lookup = first matching definition; simultaneous induction over the tokenizer for the registration order) + correspondence of normalize_label and Document.footnotes + conclusion checked on the real block phase + placement exploration with the generator table as oracle',
     ref='DESIGN.md section 5, C07')
 
 CHECKS['C02'] = dict(
